@@ -39,6 +39,7 @@ func componentConversions(r *lib.Run) {
 		{"punctuation", "a:b"}, {"punctuation", "a: b"}, {"punctuation", "a,b"}, {"punctuation", "a #b"}, {"punctuation", "{a}"}, {"punctuation", "[a]"}, {"punctuation", "&a"}, {"punctuation", "*a"}, {"punctuation", "!a"}, {"punctuation", "|a"}, {"punctuation", ">a"}, {"punctuation", "%a"}, {"punctuation", "@a"}, {"punctuation", "? a"}, {"punctuation", "- a"},
 		{"unicode", "é日本"}, {"unicode", "§cRed"}, {"unicode", "😀"},
 		{"tab", "a\tb"},
+		{"mixed-quotes", `a"b'c`}, {"mixed-quotes", `X["<"c#'`}, {"mixed-quotes", `'"`},
 	}
 	classify := func(s string) string {
 		switch {
@@ -48,6 +49,8 @@ func componentConversions(r *lib.Run) {
 			return "backslash"
 		case strings.ContainsAny(s, "\n\r"):
 			return "line-break"
+		case strings.Contains(s, `"`) && strings.Contains(s, `'`):
+			return "mixed-quotes"
 		case pktgen.RiskyNBTText(s):
 			return "yaml-scalar"
 		}
